@@ -1,7 +1,279 @@
-(* C21 - Index result combination is sound; masks are sets.  Property theorems only. *)
-From LanceV Require Import Common.Base Core.Model_Mask Core.Proofs_Mask.
+(* C21 - Index result combination is sound; masks are sets.  Property theorems only.
+   Model: Core/Model_Mask.v (RowIdTreeMap, RowIdMask) and Index/Model_ExprResult.v (IndexExprResult,
+   ScalarIndexExpr::evaluate), transcribed from /repo after the repairs of DESIGN §6 F2 and F15.
+   [tm_wf] / [mask_wf] is the representation invariant of the Rust types (BTreeMap keys are distinct u32
+   in increasing order, a RoaringBitmap is a set of u32); every operation is shown to preserve it. *)
+From LanceV Require Import Common.Base Core.Model_Mask Core.Proofs_Mask Index.Model_ExprResult Index.Proofs_ExprResult.
 Local Open Scope N_scope.
 
-Theorem C21_rust_unit_tests : True.
-Proof. exact I. Qed.
-Print Assumptions C21_rust_unit_tests.
+(* ---------------------------------------------------------------- RowIdTreeMap is a set of u64 *)
+
+(* |, &, - are union, intersection, difference of the sets of contained row ids: for ALL maps and ALL ids *)
+Theorem C21_treemap_set_algebra : forall a b : treemap, tm_wf a -> tm_wf b ->
+  (forall x, tm_contains (tm_or a b) x = tm_contains a x || tm_contains b x) /\
+  (forall x, tm_contains (tm_and a b) x = tm_contains a x && tm_contains b x) /\
+  (forall x, tm_contains (tm_sub a b) x = tm_contains a x && negb (tm_contains b x)) /\
+  tm_wf (tm_or a b) /\ tm_wf (tm_and a b) /\ tm_wf (tm_sub a b).
+Proof.
+  intros a b Ha Hb.
+  split; [intro x; apply tm_or_contains; assumption|].
+  split; [intro x; apply tm_and_contains; assumption|].
+  split; [intro x; apply tm_sub_contains; assumption|].
+  split; [apply Proofs_Mask.tm_or_wf; assumption|].
+  split; [apply Proofs_Mask.tm_and_wf | apply Proofs_Mask.tm_sub_wf]; assumption.
+Qed.
+Print Assumptions C21_treemap_set_algebra.
+
+(* insert / remove add / delete exactly one id and report whether the set changed *)
+Theorem C21_treemap_insert_remove : forall (t : treemap) (v x : N), tm_wf t -> v < two64 -> x < two64 ->
+  tm_contains (fst (tm_insert v t)) x = (x =? v) || tm_contains t x /\
+  snd (tm_insert v t) = negb (tm_contains t v) /\
+  tm_contains (fst (tm_remove v t)) x = tm_contains t x && negb (x =? v) /\
+  snd (tm_remove v t) = tm_contains t v /\
+  tm_wf (fst (tm_insert v t)) /\ tm_wf (fst (tm_remove v t)).
+Proof.
+  intros t v x Ht Hv Hx.
+  split; [rewrite tm_insert_contains, same_parts_eq by assumption; reflexivity|].
+  split; [apply tm_insert_ret|].
+  split; [rewrite tm_remove_contains, same_parts_eq by assumption; reflexivity|].
+  split; [apply tm_remove_ret|].
+  split; [apply tm_insert_wf | apply tm_remove_wf]; assumption.
+Qed.
+Print Assumptions C21_treemap_insert_remove.
+
+(* insert_range(s, e) adds exactly the ids within the bounds - for every kind of bound, empty and inverted
+   ranges, ranges ending in the last fragment, `..` included - and never runs out of loop iterations
+   (F15 repaired: no carve-out).  [Panic] is only the u64 overflow of the returned count. *)
+Theorem C21_insert_range_is_range : forall (s e : bound) (t : treemap), bound_ok s -> bound_ok e ->
+  tm_insert_range s e t <> Err /\
+  forall t' c, tm_insert_range s e t = Ok (t', c) ->
+    (tm_wf t -> tm_wf t') /\
+    forall x, x < two64 -> tm_contains t' x = tm_contains t x || in_bounds s e x.
+Proof. exact tm_insert_range_spec. Qed.
+Print Assumptions C21_insert_range_is_range.
+
+(* extend / from_iter, insert_fragment, insert_bitmap, retain_fragments, mask *)
+Theorem C21_treemap_bulk_ops : forall (t : treemap) (m : mask) (vs fs : list N) (f : N) (b : bitmap) (x : N),
+  tm_wf t -> mask_wf m ->
+  tm_contains (tm_extend t vs) x = tm_contains t x || existsb (fun v => (hi32 x =? hi32 v) && (lo32 x =? lo32 v)) vs /\
+  tm_contains (tm_insert_fragment f t) x = (hi32 x =? f) || tm_contains t x /\
+  tm_contains (tm_insert_bitmap f b t) x = (if hi32 x =? f then bm_mem b (lo32 x) else tm_contains t x) /\
+  tm_contains (tm_retain_fragments fs t) x = tm_contains t x && lmem (hi32 x) fs /\
+  tm_contains (tm_mask t m) x = tm_contains t x && selected m x /\
+  tm_wf (tm_extend t vs) /\ tm_wf (tm_mask t m).
+Proof.
+  intros t m vs fs f b x Ht Hm.
+  split; [apply tm_extend_contains|].
+  split; [apply tm_insert_fragment_contains|].
+  split; [apply tm_insert_bitmap_contains|].
+  split; [apply tm_retain_contains; assumption|].
+  split; [apply tm_mask_contains; assumption|].
+  split; [apply tm_extend_wf | apply tm_mask_wf]; assumption.
+Qed.
+Print Assumptions C21_treemap_bulk_ops.
+
+(* union_all / Extend<Self>: the union of all the maps *)
+Theorem C21_treemap_union_all : forall (maps : list treemap) (t : treemap) (x : N), Forall tm_wf maps ->
+  tm_contains (tm_union_all maps) x = existsb (fun m => tm_contains m x) maps /\
+  tm_contains (tm_extend_maps t maps) x = tm_contains t x || existsb (fun m => tm_contains m x) maps.
+Proof. intros maps t x H. split; [apply tm_union_all_contains | apply tm_extend_maps_contains]; exact H. Qed.
+Print Assumptions C21_treemap_union_all.
+
+(* size and iteration: when no fragment is Full, row_ids lists exactly the members (below 2^64), strictly
+   increasing, and len is their number; len is None exactly when row_ids is (some fragment is Full).
+   Holds for nearly full bitmaps (RoaringBitmap::full() minus a few) as well. *)
+Theorem C21_treemap_len_iter : forall (t : treemap), tm_wf t ->
+  (tm_len t = None <-> tm_row_ids t = None) /\
+  forall ids, tm_row_ids t = Some ids ->
+    lsorted ids /\ tm_len t = Some (llen ids) /\
+    forall x, x < two64 -> (In x ids <-> tm_contains t x = true).
+Proof.
+  intros t Ht. split; [apply tm_len_none_iff; exact Ht|]. intros ids E. apply tm_row_ids_spec; assumption.
+Qed.
+Print Assumptions C21_treemap_len_iter.
+
+(* serialization layout: with any roaring codec that round trips and never writes an empty or >= 4 GiB
+   payload (the real one writes at least 8 bytes), deserialize_from (serialize_into t) = t, and
+   serialized_size is the number of bytes written *)
+Theorem C21_treemap_serialize_roundtrip :
+  forall (rb_ser : bitmap -> list N) (rb_de : list N -> option bitmap),
+  (forall b, rb_de (rb_ser b) = Some b) -> (forall b, 0 < llen (rb_ser b) < two32) ->
+  forall t : treemap, tm_wf t -> llen t < two32 ->
+  tm_deserialize rb_de (tm_serialize rb_ser t) = Ok t /\
+  tm_serialized_size rb_ser t = llen (tm_serialize rb_ser t).
+Proof.
+  intros rb_ser rb_de H1 H2 t Ht Hl. split; [apply tm_serialize_roundtrip; assumption | exact (tm_serialized_size_spec rb_ser rb_de H1 H2 t)].
+Qed.
+Print Assumptions C21_treemap_serialize_roundtrip.
+
+(* Canonical form (no entry holds an empty bitmap) makes is_empty() mean set emptiness; it is preserved by
+   insert, extend/from_iter, remove, insert_range (F15: insert_range(5..5) used to break it), |, &, and by -
+   outside the class Known_C21_full_minus_whole_bitmap (some fragment is Full on the left and holds a
+   bitmap with all 2^32 offsets on the right). *)
+Theorem C21_canonical_form : forall (a b : treemap) (v : N) (vs : list N) (s e : bound),
+  tm_wf a -> tm_wf b -> tm_canon a -> tm_canon b -> bound_ok s -> bound_ok e ->
+  (tm_is_empty a = true <-> forall x, x < two64 -> tm_contains a x = false) /\
+  tm_canon (fst (tm_insert v a)) /\ tm_canon (tm_extend a vs) /\ tm_canon (fst (tm_remove v a)) /\
+  (forall t' c, tm_insert_range s e a = Ok (t', c) -> tm_canon t') /\
+  tm_canon (tm_or a b) /\ tm_canon (tm_and a b) /\
+  (Known_C21_full_minus_whole_bitmap a b = false -> tm_canon (tm_sub a b)).
+Proof.
+  intros a b v vs s e Ha Hb Hca Hcb Hs He.
+  split; [apply tm_is_empty_spec; assumption|].
+  split; [apply tm_insert_canon; assumption|].
+  split; [apply tm_extend_canon; assumption|].
+  split; [apply tm_remove_canon; assumption|].
+  split; [intros t' c E; apply (tm_insert_range_canon s e a t' c); assumption|].
+  split; [apply tm_or_canon; assumption|].
+  split; [apply tm_and_canon|].
+  intro K. apply tm_sub_canon; assumption.
+Qed.
+Print Assumptions C21_canonical_form.
+
+(* KNOWN FINDING (class Known_C21_full_minus_whole_bitmap, reproduced on the real code by `hx_c21 probe`):
+   inside the class the canonical form - and with it is_empty() as set emptiness - is NOT preserved by
+   subtraction: {7: Full} - {7: Partial(all 2^32 offsets)} is the empty set, yet is_empty() is false.
+   (Membership is unaffected: C21_treemap_set_algebra has no carve-out.) *)
+Theorem C21_is_empty_full_minus_whole_bitmap_refuted : exists a b : treemap,
+  Known_C21_full_minus_whole_bitmap a b = true /\ tm_wf a /\ tm_wf b /\ tm_canon a /\ tm_canon b /\
+  ~ ((forall x, tm_contains (tm_sub a b) x = false) -> tm_is_empty (tm_sub a b) = true).
+Proof.
+  exists [(7, Full)], [(7, Partial bm_full)].
+  assert (Ha : tm_wf [(7, Full)]).
+  { change [(7, Full)] with (aput 7 Full []). apply tm_wf_aput; [reflexivity | exact I | apply tm_wf_nil]. }
+  assert (Hb : tm_wf [(7, Partial bm_full)]).
+  { change [(7, Partial bm_full)] with (aput 7 (Partial bm_full) []).
+    apply tm_wf_aput; [reflexivity | apply bm_wf_full | apply tm_wf_nil]. }
+  split; [vm_compute; reflexivity|]. split; [exact Ha|]. split; [exact Hb|].
+  split; [repeat constructor|]. split; [repeat constructor|].
+  intro H. assert (E : tm_is_empty (tm_sub [(7, Full)] [(7, Partial bm_full)]) = false) by (vm_compute; reflexivity).
+  rewrite H in E; [discriminate|].
+  intro x. rewrite tm_sub_contains by assumption. rewrite !tm_contains_has. cbn [aget].
+  destruct (hi32 x =? 7); [|reflexivity]. cbn [sel_has]. rewrite bm_mem_full.
+  pose proof (lo32_lt x) as Hlt. replace (lo32 x <? two32) with true by lia. reflexivity.
+Qed.
+Print Assumptions C21_is_empty_full_minus_whole_bitmap_refuted.
+
+(* ---------------------------------------------------------------- RowIdMask: pointwise boolean algebra *)
+
+(* F2 repaired: the complement really is the complement, for every shape of mask *)
+Theorem C21_mask_not : forall (m : mask) (x : N), mask_wf m ->
+  selected (mnot m) x = negb (selected m x) /\ mask_wf (mnot m).
+Proof. intros m x H. split; [apply mnot_selected | apply mnot_wf]; assumption. Qed.
+Print Assumptions C21_mask_not.
+
+Theorem C21_mask_and : forall (l r : mask) (x : N), mask_wf l -> mask_wf r ->
+  selected (mand l r) x = selected l x && selected r x /\ mask_wf (mand l r).
+Proof. intros l r x Hl Hr. split; [apply mand_selected | apply mand_wf]; assumption. Qed.
+Print Assumptions C21_mask_and.
+
+(* F2 repaired: `|` is the pointwise disjunction for all 16 shape combinations, and its unreachable!() arm
+   is indeed unreachable *)
+Theorem C21_mask_or : forall (l r : mask), mask_wf l -> mask_wf r ->
+  exists m, mor l r = Ok m /\ mask_wf m /\ forall x, selected m x = selected l x || selected r x.
+Proof. exact mor_spec. Qed.
+Print Assumptions C21_mask_or.
+
+Theorem C21_mask_normalize_also : forall (m : mask) (t : treemap) (x : N), mask_wf m -> tm_wf t ->
+  selected (normalize m) x = selected m x /\
+  (allow (normalize m) = None \/ block (normalize m) = None) /\
+  selected (also_block m t) x = selected m x && negb (tm_contains t x) /\
+  selected (also_allow m t) x =
+    match allow m with
+    | None => selected m x
+    | Some ex => (tm_contains ex x || tm_contains t x)
+                 && negb (match block m with Some b => tm_contains b x | None => false end)
+    end /\
+  mask_wf (normalize m) /\ mask_wf (also_block m t) /\ mask_wf (also_allow m t).
+Proof.
+  intros m t x Hm Ht. split; [apply normalize_selected; assumption|].
+  split; [destruct m as [[a|] [b|]]; cbn; auto|].
+  split; [apply also_block_selected; assumption|].
+  split; [apply also_allow_selected; assumption|].
+  split; [apply normalize_wf; assumption|].
+  split; [apply also_block_wf | apply also_allow_wf]; assumption.
+Qed.
+Print Assumptions C21_mask_normalize_also.
+
+(* iter_ids lists exactly the selected ids, strictly increasing; max_len is the size of the allow list *)
+Theorem C21_mask_iter_ids : forall (m : mask), mask_wf m ->
+  (forall ids, iter_ids m = Some ids ->
+     lsorted ids /\ forall x, x < two64 -> (In x ids <-> selected m x = true)) /\
+  (forall n, max_len m = Some n -> exists a ids, allow m = Some a /\ tm_row_ids a = Some ids /\ n = llen ids).
+Proof.
+  intros m Hm. split; [intros ids E; apply iter_ids_spec; assumption | intros n E; apply max_len_spec; assumption].
+Qed.
+Print Assumptions C21_mask_iter_ids.
+
+(* ---------------------------------------------------------------- the Exact / AtMost / AtLeast table *)
+
+(* [sound r T]: Exact m claims selected m = T, AtMost m claims T ⊆ selected m, AtLeast m claims selected m ⊆ T.
+   Every row of the NOT / AND / OR table keeps the claim true for the combined truth. *)
+Theorem C21_guarantees : forall (l r : expr_result) (Tl Tr : truth),
+  result_wf l -> result_wf r -> sound l Tl -> sound r Tr ->
+  sound (combine_not l) (fun x => negb (Tl x)) /\
+  sound (combine_and l r) (fun x => Tl x && Tr x) /\
+  (exists res, combine_or l r = Ok res /\ sound res (fun x => Tl x || Tr x) /\ result_wf res) /\
+  result_wf (combine_not l) /\ result_wf (combine_and l r).
+Proof.
+  intros l r Tl Tr Hwl Hwr Hl Hr.
+  destruct (combine_not_sound l Tl Hwl Hl) as [N1 N2].
+  destruct (combine_and_sound l r Tl Tr Hwl Hwr Hl Hr) as [A1 A2].
+  split; [exact N1|]. split; [exact A1|]. split; [apply combine_or_sound; assumption|]. split; assumption.
+Qed.
+Print Assumptions C21_guarantees.
+
+(* A whole ScalarIndexExpr: if every index answers within its own guarantee, the combined answer is within
+   its guarantee for the expression's truth (two-valued: NOT is the complement of the truth set; the
+   three-valued NULL case is property C19).  It fails exactly when some leaf fails and never panics. *)
+Theorem C21_evaluate_sound : forall (load : N -> outcome search_result) (tr : N -> truth) (e : iexpr),
+  (forall i s, In i (leaves e) -> load i = Ok s -> tm_wf (leaf_map s) /\ leaf_sound s (tr i)) ->
+  (forall i, In i (leaves e) -> load i <> Panic) ->
+  evaluate load e <> Panic /\
+  (evaluate load e = Err <-> exists i, In i (leaves e) /\ load i = Err) /\
+  forall r, evaluate load e = Ok r -> sound r (etruth tr e) /\ result_wf r.
+Proof.
+  intros load tr e Hl Hp. destruct (evaluate_sound load tr e Hl Hp) as [H1 H2].
+  split; [exact H1|]. split; [apply (evaluate_err_iff load tr e Hl Hp) | exact H2].
+Qed.
+Print Assumptions C21_evaluate_sound.
+
+(* ---------------------------------------------------------------- regression inputs and non-vacuity *)
+
+(* the inputs of DESIGN §6 F2, evaluated on the model (they violated the property before 0357916) *)
+Example C21_F2_inputs :
+  (forall x, In x [0; 1; 2; 3; 4294967296; 18446744073709551615] ->
+     selected (mnot all_rows) x = false) /\
+  map (selected (mnot {| allow := Some (tm_from_iter [1; 2; 3]); block := Some (tm_from_iter [2]) |})) [0; 1; 2; 3; 4]
+    = [true; false; true; false; true] /\
+  match mor all_rows (from_block (tm_from_iter [0])) with Ok m => selected m 0 = true | _ => False end.
+Proof.
+  split; [|split; vm_compute; reflexivity].
+  intros x Hx. repeat (destruct Hx as [<-|Hx]; [vm_compute; reflexivity|]). destruct Hx.
+Qed.
+
+(* the inputs of DESIGN §6 F15 (they violated the property before e79147a) *)
+Example C21_F15_inputs :
+  tm_insert_range (Incl 0) (Excl 0) [] = Ok ([], 0) /\
+  tm_insert_range (Incl 5) (Excl 5) [] = Ok ([], 0) /\
+  tm_insert_range (Incl u64max) (Incl u64max) [] = Ok ([(u32max, Partial (Pos [u32max]))], 1) /\
+  tm_insert_range (Incl (u64max - 2)) Unb [] = Ok ([(u32max, Partial (Pos [u32max - 2; u32max - 1; u32max]))], 3) /\
+  tm_insert_range (Excl u64max) Unb [(3, Full)] = Ok ([(3, Full)], 0).
+Proof. vm_compute. repeat split; reflexivity. Qed.
+
+(* the hypotheses are satisfiable by non-trivial values *)
+Example C21_nonvacuous :
+  let a := tm_from_iter [1; 2; 4294967296 + 7] in
+  let b := tm_insert_fragment 1 (tm_from_iter [2; 9]) in
+  tm_wf a /\ tm_wf b /\
+  mask_wf {| allow := Some a; block := Some b |} /\
+  evaluate (fun i => match i with 0 => Ok (SAtMost a) | _ => Ok (SExact b) end)
+           (EOr (ENot (EQuery 0)) (EAnd (EQuery 0) (EQuery 1)))
+  = Ok (AtLeast {| allow := None; block := Some [(0, Partial (Pos [1; 2])); (1, Partial (Pos [7]))] |}).
+Proof.
+  cbv zeta.
+  assert (Ha : tm_wf (tm_from_iter [1; 2; 4294967296 + 7])) by (apply tm_extend_wf; apply tm_wf_nil).
+  assert (Hb : tm_wf (tm_insert_fragment 1 (tm_from_iter [2; 9]))).
+  { apply tm_wf_aput; [reflexivity | exact I | apply tm_extend_wf; apply tm_wf_nil]. }
+  split; [exact Ha|]. split; [exact Hb|]. split; [split; assumption|]. vm_compute. reflexivity.
+Qed.
